@@ -24,6 +24,10 @@ claimed = {
    text="Bounded exhaustive model checking of the parser: every chain of 1-3 (thorough: 4) operators drawn from all 24 infix/postfix operators (every ordered tuple), with operands of 3 kinds, both quote styles, every single parenthesis span and 3 whitespace policies, parsed by the real parser and compared - as canonical trees built from the exported AST - with a precedence-climbing reference parser driven only by the statement's row table (static errors predicted by class); plus complete tables for regex-vs-division after every token kind and for and/or/in as names.",
    note="Trusted: the ~120-line reference parser and the AST-to-canonical-tree conversion (paths flattened to step lists, stacked predicates to filter lists - the two forms the optimiser produces). Unary minus and chains longer than 4 are not covered.",
    technique="explicit enumeration of all operator chains (stateless DFS) vs table-driven reference parser on canonical ASTs", design="§5 C04", engine=E1),
+ "C05": dict(
+   text="Model checking of histories on the real code: (1) every history of 1-2 Eval calls over a pool of ~250 programs x 4 documents (about 1M histories; thorough adds all length-3 histories over the 46 state-sensitive programs) and the 5-fold repetition/alternation shapes, each step compared with the outcome of the same call run alone as the only call of a fresh process, and the expression's syntax tree, printed form and registry compared with their values after Compile; (2) explicit-state breadth-first search over the same menu on pooled expressions, states identified by a fingerprint of every syntax tree, printed form, registry and built-in function object (hook accessors), invariant checked on every transition.",
+   note="Trusted: the solo outcomes (one fresh process per call), the fingerprint accessors behind the verif tag (VerifRoot, VerifRegistry, VerifBaseEnv). Results whose order follows Go map iteration are compared as multisets (sanctioned). Programs outside the pool and histories longer than 3 are not covered. A difference that depends on earlier cases of the same worker process is confirmed by deterministically re-running that worker's case sequence.",
+   technique="exhaustive enumeration of bounded Eval histories + explicit-state BFS with state fingerprints over the real implementation", design="§5 C05", engine="E1 + E3 (mc/props/c05.go: history enumeration and fingerprint BFS)"),
 }
 pending_reason = "check not built yet in this session (planned, see DESIGN.md §5)"
 
